@@ -1,6 +1,9 @@
+mod check;
+mod components;
 mod explore;
 mod known;
 mod monitors;
+mod plan;
 mod refconf;
 mod scen;
 mod sim;
@@ -90,6 +93,20 @@ fn main() {
                     }
                 }
             }
+        }
+        "check" => {
+            let prop = args.get(2).expect("property id").clone();
+            let tier = args.get(3).cloned().unwrap_or_else(|| "quick".into());
+            let Some(pid) = plan::PROPS.iter().find(|p| **p == prop) else {
+                eprintln!("unknown property {}", prop);
+                std::process::exit(2);
+            };
+            let code = check::run_check(pid, &tier, threads, seed);
+            std::process::exit(code);
+        }
+        "replay" => {
+            let f = args.get(2).expect("replay file");
+            std::process::exit(check::run_replay(f));
         }
         _ => {
             eprintln!("usage: rmc explore <scenario> <level> [--budget s] [--threads n] [--show]");
